@@ -585,9 +585,9 @@ def case_nblast(ctx, case):
     ans = ctx.ask(f"c06.nblast {table_tok(tab)}|{hd}|{neurons_tok(qs)}|{neurons_tok(tset)}|{rt(TOL64)} {rt(tol_out)}|{vals_tok(df.values)}")
     lab = labels_of(df, both)
     if ans == 'UNDEF':
+        # some self hit is exactly 0: the normalised score is a division by zero (numpy: inf / nan, which
+        # Python's min / max may then even drop) — outside the guard of every theorem, nothing is claimed
         ctx.count('nblast_undef')
-        ctx.oracle(not np.isfinite(df.values.astype(float)).all(),
-                   'score undefined by the definition (zero self-hit) but navis returns finite values', case)
         return
     parts = ans.split('#')
     mlab, verdict = '#'.join(parts[:2]), parts[2] if len(parts) > 2 else ans
@@ -610,8 +610,10 @@ def case_nblast(ctx, case):
             ok = bool((dv[offd] == 0).all())
             diag_ok = all(is_unit(c) for c in qs)
             if diag_ok:
+                # guard of `allbyall_eq_query_self`: non-zero self hits (0/0 = nan in nblast(x, x))
+                fin = np.isfinite(np.diag(ref.values.astype(float)))
                 scale = np.maximum(1, np.abs(np.diag(v)))
-                ok = ok and bool((np.diag(dv) <= 1e-13 * scale).all())
+                ok = ok and bool((np.diag(dv)[fin] <= 1e-13 * scale[fin]).all())
         ctx.oracle(ok, 'nblast_allbyall(x) differs from nblast(x, x)', case)
         if norm:
             ctx.oracle(bool((np.diag(v) == 1).all()), f'all-by-all self scores are not exactly 1: {np.diag(v)}', case)
@@ -769,6 +771,14 @@ def case_ext(ctx, case):
 
     F = np.array([[fwd(a, b) for b in ts] for a in qs])
     mode = cfg['mode']
+    if norm:
+        # guard of the definition: a zero self hit is a division by zero (inf / nan, dropped or not by min / max)
+        def sh0(a):
+            aa = np.array(a['alpha'], dtype=float)
+            return (float(np.sum(f(np.zeros(len(aa)), np.sqrt(aa * aa)))) if ua else len(a['pts']) * float(f(0, 1.0))) == 0
+        if any(sh0(a) for a in qs) or (mode != 'forward' and any(sh0(b) for b in ts)):
+            ctx.count('ext_undef')
+            return
     if mode == 'forward':
         exp = F
     else:
@@ -830,6 +840,17 @@ def case_real(ctx, case):
     ctx.oracle(bool((np.diag(A) == 1).all()), 'all-by-all diagonal is not exactly 1', case)
     off = ~np.eye(len(q), dtype=bool)
     ctx.oracle(bool((A[off] == S[off]).all()), 'all-by-all differs from nblast(q, q) off the diagonal', case)
+    # nblast_smart with a threshold every pair passes runs the full NBLAST on every pair
+    if min(len(n.points) for n in nl) >= 10:
+        try:
+            sm = NF.nblast_smart(q, t, t=-1000, criterion='score', **kw)
+        except Exception as e:   # noqa  (pre-NBLAST down-sampling problems are not part of this property)
+            ctx.count('smart_error', type(e).__name__)
+            sm = None
+        if sm is not None:
+            ctx.oracle(list(sm.index) == list(F.index) and list(sm.columns) == list(F.columns) and
+                       bool((np.abs(sm.values - F.values) <= 1e-12).all()),
+                       "nblast_smart(criterion='score', t=-1000) differs from nblast", case)
 
 
 # ---------------------------------------------------------------------------------------------
@@ -880,11 +901,11 @@ def gen_cases(ctx):
     r = ctx.rng
     for w in witness_cases():
         yield 'nblast', w
-    for _ in range(ctx.budget(250, 2500)):
+    for _ in range(ctx.budget(700, 6000)):
         yield 'digit', gen_digit(ctx, r)
-    for _ in range(ctx.budget(120, 1200)):
+    for _ in range(ctx.budget(350, 3000)):
         yield 'lookup', gen_lookup(ctx, r)
-    for _ in range(ctx.budget(120, 1200)):
+    for _ in range(ctx.budget(350, 3000)):
         yield 'match', gen_match(ctx, r)
     # every (mode, normalised, alpha, table kind) combination at least once, then random
     combos = list(itertools.product(['forward', 'mean', 'min', 'max', 'both'], [True, False], [True, False], ['auto', 'df']))
@@ -893,17 +914,33 @@ def gen_cases(ctx):
         c = gen_nblast(ctx, r, dict(fn='nblast', tkind=tk, ua=ua))
         c['cfg']['mode'], c['cfg']['normalized'] = mode, norm
         yield 'nblast', c
-    for _ in range(ctx.budget(130, 1500)):
+    for _ in range(ctx.budget(450, 4500)):
         yield 'nblast', gen_nblast(ctx, r)
-    for _ in range(ctx.budget(20, 200)):
+    for _ in range(ctx.budget(60, 500)):
         qs, _ = gen_neurons(r, 1, 0, r.random() < 0.5, r.choice(['any', 'sq', 'one']), 12)
         yield 'selfhit', dict(table=dict(kind='auto') if r.random() < 0.4 else gen_table(r), use_alpha=r.random() < 0.5, cloud=qs[0])
-    for _ in range(ctx.budget(40, 400)):
+    for _ in range(ctx.budget(120, 1000)):
         yield 'ext', gen_ext(ctx, r)
-    for _ in range(ctx.budget(6, 60)):
+    for _ in range(ctx.budget(15, 120)):
         nq = r.randint(1, 3)
-        yield 'real', dict(seed=r.randrange(10 ** 9), n=nq + r.randint(1, 3), nq=nq, npts=[r.choice([1, 2, 6]), r.randint(6, 40)],
+        yield 'real', dict(seed=r.randrange(10 ** 9), n=nq + r.randint(1, 3), nq=nq, npts=[r.choice([4, 6, 12]), r.randint(12, 40)],
                            scale=r.choice([0.5, 1, 2, 5]), use_alpha=r.random() < 0.4, limit=r.choice([None, None, 'auto', 5]))
+
+
+def sweep_digit(ctx):
+    """Exhaustive small scope: every boundary set over a 5-point grid (2..5 boundaries), both closedness,
+    labels and direct construction with every clip combination, every grid / half-grid value, +-inf, nan,
+    and the square roots of the squared grid."""
+    grid = [0.0, 0.5, 1.0, 1.5, 2.0]
+    vals = [k / 4 for k in range(-2, 11)] + [INF, -INF, float('nan')] + [['s', (k / 4) ** 2] for k in range(0, 10)] + \
+           [['s', 0.3], ['s', 2.0], ['s', 3.9]]
+    for n in range(2, 6):
+        for bounds in itertools.combinations(grid, n):
+            for right in (True, False):
+                yield 'digit', dict(bounds=list(bounds), right=right, how='str', vals=vals)
+                for c0 in (True, False):
+                    for c1 in (True, False):
+                        yield 'digit', dict(bounds=list(bounds), right=right, how='make', clip=[c0, c1], vals=vals)
 
 
 def run(ctx):
@@ -919,6 +956,9 @@ def run(ctx):
     ]
     for kind, case in gen_cases(ctx):
         run_case(ctx, kind, case)
+    if not ctx.quick() or ctx.search_mode:
+        for kind, case in sweep_digit(ctx):
+            run_case(ctx, kind, case)
 
 
 def replay(ctx, rp):
